@@ -111,6 +111,10 @@ type Ev struct {
 	HasY  bool        // hook: a scalar was passed
 	Step  []float64   // hook (rprop): step sizes passed
 	B     bool        // hook: verdict (stop); cons: verdict (ok)
+	// newton (round 2): K = evalv | hookv | dir
+	YV    []float64   // evalv/hookv: y (RunRoot: f(x); RunCrit: gradient)
+	J     [][]float64 // evalv/hookv: Jacobian / Hessian
+	Panic bool        // dir: the solver panicked (Err: it returned an error; G: the direction)
 }
 
 type capSentinel struct{}
